@@ -1456,6 +1456,21 @@ _dbus_connection_unref_unlocked (DBusConnection *connection)
     _dbus_connection_last_unref (connection);
 }
 
+#ifdef DBUS_VERIF
+/* Verification hook: seed the serial counter of a connection so that the
+ * 32-bit wrap-around can be reached. Caller must not hold the lock. */
+DBUS_PRIVATE_EXPORT void _dbus_verif_connection_set_next_serial (DBusConnection *connection, dbus_uint32_t serial);
+
+void
+_dbus_verif_connection_set_next_serial (DBusConnection *connection,
+                                        dbus_uint32_t   serial)
+{
+  CONNECTION_LOCK (connection);
+  connection->client_serial = serial;
+  CONNECTION_UNLOCK (connection);
+}
+#endif
+
 static dbus_uint32_t
 _dbus_connection_get_next_client_serial (DBusConnection *connection)
 {
